@@ -665,6 +665,11 @@ func runTreeEdge(e *Edge, pkg *reg.Pkg, x *conc.Ctx, enc, prop string, res *rep.
 		res.InfraErr("binding self-test failed %s/%s: Project(Build(t)) != t: %v", pkg.Name, x.V.Name, abs.Diff(back, pre, true))
 		return
 	}
+	tw := abs.StorageTwin(root).(ygot.GoStruct)
+	if back := conc.Restrict(abs.Project(tw, pkg), x.V); !abs.Equal(back, pre, true) {
+		res.InfraErr("storage twin self-test failed %s/%s: %v", pkg.Name, x.V.Name, abs.Diff(back, pre, true))
+		return
+	}
 	path, tv, want, callErr, pan, err := applyAct(e, root, sch, pkg, x, enc, res)
 	if err != nil {
 		if _, ok := err.(conc.ErrNoValue); ok {
@@ -672,6 +677,9 @@ func runTreeEdge(e *Edge, pkg *reg.Pkg, x *conc.Ctx, enc, prop string, res *rep.
 			return
 		}
 		res.InfraErr("apply: %v", err)
+		return
+	}
+	if pan == "" && checkTwin(e, tw, pre, pkg, x, enc, path, tc, res) {
 		return
 	}
 	var tvBefore proto.Message
@@ -686,6 +694,24 @@ func runTreeEdge(e *Edge, pkg *reg.Pkg, x *conc.Ctx, enc, prop string, res *rep.
 		res.Sample(map[string]interface{}{"pkg": pkg.Name, "variant": x.V.Name, "op": e.Act.Op, "path": pathString(path), "value": want, "enc": enc, "pre": pre.Lines(), "post": got.Lines()})
 	}
 	checkStep(e, pkg, x, enc, prop, root, sch, path, want, callErr, pan, pre, got, exp, tc, res)
+}
+
+// checkTwin: the operation was applied to a tree whose leaves share their storage with the
+// leaves of a second tree (abs.StorageTwin); the leaves of that tree are "other leaves" and
+// must keep their values -- an operation has to replace leaf storage, never write through it.
+func checkTwin(e *Edge, tw ygot.GoStruct, pre *abs.Tree, pkg *reg.Pkg, x *conc.Ctx, enc string, path *gpb.Path, tc *TreeCase, res *rep.Result) bool {
+	after := conc.Restrict(abs.Project(tw, pkg), x.V)
+	d := abs.Diff(after, pre, false)
+	if len(d) == 0 {
+		return false
+	}
+	prop := "C10"
+	if e.Act.Op == "delete" {
+		prop = "C12"
+	}
+	res.Violate(prop, sigFor(prop, "frame-shared-storage", e, pkg, x, enc),
+		fmt.Sprintf("%s(%s) wrote through existing leaf storage: the leaves of a tree sharing that storage changed: %s", e.Act.Op, pathString(path), strings.Join(d, "; ")), tc)
+	return true
 }
 
 // runWalk follows a random path through the emitted state graph on one real tree.
@@ -721,12 +747,16 @@ func runWalk(graph map[string][]*Edge, pkg *reg.Pkg, x *conc.Ctx, n int, rng *ra
 			return
 		}
 		pre := conc.Restrict(abs.Project(root, pkg), x.V)
+		tw := abs.StorageTwin(root).(ygot.GoStruct)
 		path, _, want, callErr, pan, err := applyAct(e, root, sch, pkg, x, enc, res)
 		if err != nil {
 			if _, ok := err.(conc.ErrNoValue); ok {
 				continue
 			}
 			res.InfraErr("walk apply: %v", err)
+			return
+		}
+		if pan == "" && checkTwin(e, tw, pre, pkg, x, enc, path, &TreeCase{Sub: "tree", Edge: e, Pkg: pkg.Name, Variant: x.V.Name, Seed: x.Seed, Enc: enc}, res) {
 			return
 		}
 		hist = append(hist, e)
